@@ -248,35 +248,8 @@ Qed.
 (* ------------------------------------------------------------------ *)
 (** * Reading the marked string *)
 
-Section Vstr.
-Variables so sc t1 t2 : N.
-Hypothesis Hso : okc so = false.
-Hypothesis Hsc : okc sc = false.
-Hypothesis Ht1 : okc t1 = false.
-Hypothesis Ht2 : okc t2 = false.
-
 Lemma okc_neq c k : okc c = true -> okc k = false -> N.eqb c k = false.
 Proof. intros H1 H2. destruct (N.eqb_spec c k); [subst; congruence|reflexivity]. Qed.
-
-Lemma vstr_plain_keep x r : plain x -> vstr so sc t1 t2 false (x ++ r) = x ++ vstr so sc t1 t2 false r.
-Proof.
-  induction x as [|c x IH]; intros H; cbn [app vstr]; [reflexivity|].
-  apply plain_cons in H as [Hc Hx].
-  rewrite (okc_neq c so Hc Hso), (okc_neq c sc Hc Hsc), (okc_neq c t1 Hc Ht1), (okc_neq c t2 Hc Ht2).
-  cbn [orb]. now rewrite IH.
-Qed.
-
-Lemma vstr_plain_skip x r : plain x -> vstr so sc t1 t2 true (x ++ r) = vstr so sc t1 t2 true r.
-Proof.
-  induction x as [|c x IH]; intros H; cbn [app vstr]; [reflexivity|].
-  apply plain_cons in H as [Hc Hx].
-  rewrite (okc_neq c so Hc Hso), (okc_neq c sc Hc Hsc), (okc_neq c t1 Hc Ht1), (okc_neq c t2 Hc Ht2).
-  cbn [orb]. now rewrite IH.
-Qed.
-
-Lemma vstr_plain x : plain x -> vstr so sc t1 t2 false x = x.
-Proof. intros H. rewrite <- (app_nil_r x) at 1. rewrite vstr_plain_keep by exact H. cbn. now rewrite app_nil_r. Qed.
-End Vstr.
 
 Lemma okc_pua c : okc c = true -> is_pua c = false.
 Proof.
@@ -300,9 +273,6 @@ Qed.
 
 Lemma astr_plain x : plain x -> astr x = x.
 Proof. intros H. unfold astr. rewrite <- (app_nil_r x) at 1. rewrite astr_go_keep by exact H. cbn. now rewrite app_nil_r. Qed.
-Lemma rstr_plain x : plain x -> rstr x = x.
-Proof. apply vstr_plain; reflexivity. Qed.
-
 Lemma astr_enc_app d : Forall (fun sg : DMP.op * str => plain (snd sg)) d -> forall r,
   astr (enc d ++ r) = DMP.t2 d ++ astr r.
 Proof.
@@ -323,27 +293,5 @@ Proof.
   - (* EQUAL *) rewrite astr_go_keep by exact H. rewrite <- app_assoc. f_equal. apply IH.
 Qed.
 
-Lemma rstr_enc_app d : Forall (fun sg : DMP.op * str => plain (snd sg)) d -> forall r,
-  rstr (enc d ++ r) = DMP.t1 d ++ rstr r.
-Proof.
-  unfold rstr. induction 1 as [|[o t] d H _ IH]; intros r; [reflexivity|].
-  unfold enc. cbn [map concat]. fold (enc d). rewrite <- app_assoc.
-  rewrite DMPBase.t1_proj, DMPBase.proj_cons, <- DMPBase.t1_proj. cbn [snd] in H.
-  destruct o; unfold enc_seg; cbn [fst snd DMPBase.keep1 DMP.is_insert negb].
-  - (* DELETE *) cbn [app vstr]. change (N.eqb DEL_O INS_O) with false. change (N.eqb DEL_O INS_C) with false.
-    change (N.eqb DEL_O DEL_O) with true. cbn [orb]. cbv iota.
-    rewrite <- app_assoc. rewrite vstr_plain_keep by (reflexivity || exact H). rewrite <- app_assoc. f_equal.
-    cbn [app vstr]. change (N.eqb DEL_C INS_O) with false. change (N.eqb DEL_C INS_C) with false.
-    change (N.eqb DEL_C DEL_O) with false. change (N.eqb DEL_C DEL_C) with true. cbn [orb]. cbv iota.
-    apply IH.
-  - (* INSERT *) cbn [app vstr]. change (N.eqb INS_O INS_O) with true. cbv iota.
-    rewrite <- app_assoc. rewrite vstr_plain_skip by (reflexivity || exact H).
-    cbn [app vstr]. change (N.eqb INS_C INS_O) with false. change (N.eqb INS_C INS_C) with true. cbv iota.
-    apply IH.
-  - (* EQUAL *) rewrite vstr_plain_keep by (reflexivity || exact H). rewrite <- app_assoc. f_equal. apply IH.
-Qed.
-
 Theorem astr_enc d : Forall (fun sg : DMP.op * str => plain (snd sg)) d -> astr (enc d) = DMP.t2 d.
 Proof. intros H. rewrite <- (app_nil_r (enc d)), astr_enc_app by exact H. cbn. now rewrite app_nil_r. Qed.
-Theorem rstr_enc d : Forall (fun sg : DMP.op * str => plain (snd sg)) d -> rstr (enc d) = DMP.t1 d.
-Proof. intros H. rewrite <- (app_nil_r (enc d)), rstr_enc_app by exact H. cbn. now rewrite app_nil_r. Qed.
